@@ -23,7 +23,7 @@ def known_findings():
         body = line[len("finding:"):].strip()
         prop = body.split()[0].split("=", 1)[1]
         rest = body.split(" ", 1)[1]
-        key, _, text = rest.partition(" :: ")
+        key, _, text = rest.partition(" ;; ")
         key = key[len("key="):] if key.startswith("key=") else key
         out[(prop, key)] = text
     return out
